@@ -78,9 +78,10 @@ theorem replayEff_noNew (s : Session) (stamp : String) (gfb n : Int) (rp : Msg)
   unfold replayEff
   split <;> simp [newWrites, h1, h2]
 
-structure LoopOut (env : Env) (sr : Msg → Bool) (c : Conn) (rs : List (Int × Msg)) (gfb cur : Int)
+structure LoopOut (env : Env) (sr : Msg → Bool) (c : Conn) (rs : List (Int × Msg)) (gfb e cur : Int)
     (J' : Rows) (gfb' gfe' : Int) (es : List Effect) : Prop where
   le : gfb ≤ gfb'
+  leE : gfb' = gfb ∨ gfb' ≤ e + 1
   leCur : gfb' ≤ cur
   gfeCur : gfe' ≤ cur
   sorted : Rows.Sorted J'
@@ -94,20 +95,22 @@ structure LoopOut (env : Env) (sr : Msg → Bool) (c : Conn) (rs : List (Int × 
   copies : ∀ p ∈ rs, Replayable sr p.2 →
     ∃ rp, prepareReplay p.2 = .ok rp ∧ Rows.find p.1 J' = some (buildFrame c.sess env.stamp rp p.1)
 
-theorem resendLoop_spec (env : Env) (sr : Msg → Bool) (cur : Int) :
+/-- the requested rows (numbers `≤ e`), followed by any further rows `tl` -/
+theorem resendLoop_spec (env : Env) (sr : Msg → Bool) (e cur : Int) (tl : List Msg) :
     ∀ (rs : List (Int × Msg)) (c : Conn) (gfb gfe : Int), ResendCtx env c →
       Rows.Sorted c.journal.out → Rows.AllLt gfb c.journal.out → (∀ p ∈ c.journal.out, RowOk p.2 p.1) →
-      Rows.Sorted rs → (∀ p ∈ rs, RowOk p.2 p.1 ∧ gfb ≤ p.1 ∧ p.1 < cur) → gfb ≤ cur → gfe ≤ cur →
+      Rows.Sorted rs → (∀ p ∈ rs, RowOk p.2 p.1 ∧ gfb ≤ p.1 ∧ p.1 < cur ∧ p.1 ≤ e) → gfb ≤ cur → gfe ≤ cur →
       ∃ J' o' gfb' gfe' es,
-        resendLoop env sr (rs.map (·.2)) gfb gfe c = ⟨.ok (gfb', gfe'), setOut c J' o', es⟩ ∧
-        LoopOut env sr c rs gfb cur J' gfb' gfe' es := by
+        resendLoop env sr e (rs.map (·.2) ++ tl) gfb gfe c =
+          Out.pre es (resendLoop env sr e tl gfb' gfe' (setOut c J' o')) ∧
+        LoopOut env sr c rs gfb e cur J' gfb' gfe' es := by
   intro rs
   induction rs with
   | nil =>
     intro c gfb gfe _ hs hlt hrow _ _ hb he
     refine ⟨c.journal.out, c.journal.outSeq, gfb, gfe, [], ?_, ?_⟩
-    · rw [setOut_self]; rfl
-    · exact ⟨Int.le_refl _, hb, he, hs, hlt, hrow, rfl, fun _ _ => rfl,
+    · rw [setOut_self, Out.pre_nil]; rfl
+    · exact ⟨Int.le_refl _, Or.inl rfl, hb, he, hs, hlt, hrow, rfl, fun _ _ => rfl,
         fun k g' hk hf => by
           have := hlt _ (Rows.find_mem hf); simp only at this; omega,
         fun p hp => by cases hp⟩
@@ -117,11 +120,11 @@ theorem resendLoop_spec (env : Env) (sr : Msg → Bool) (cur : Int) :
     have hhd := hall (n, row) (by simp)
     have hr : RowOk row n := hhd.1
     have hrs' := List.pairwise_cons.mp hrs
-    simp only [List.map_cons]
+    simp only [List.map_cons, List.cons_append]
     by_cases hrep : Replayable sr row
     · -- retransmit
       obtain ⟨rp, hrp, hty, h43, h34, hlat⟩ := prepareReplay_ok hr
-      rw [loop_replay env sr row rp _ n gfb gfe c hc hr hrep hrp hty h43 h34 hlat hlt hhd.2.1]
+      rw [loop_replay env sr e row rp _ n gfb gfe c hc hr hhd.2.2.2 hrep hrp hty h43 h34 hlat hlt hhd.2.1]
       have hf := afterReplay_facts c.sess env.stamp c.journal.out gfb n rp hs hlt hhd.2.1
       have hrowf : RowOk (buildFrame c.sess env.stamp rp n) n :=
         buildFrame_rowOk _ _ _ _ (frameLatin1_build _ _ _ _ hc.latS hc.latT hc.latStamp hlat)
@@ -135,13 +138,14 @@ theorem resendLoop_spec (env : Env) (sr : Msg → Bool) (cur : Int) :
         ih (setOut c (afterReplay c.sess env.stamp c.journal.out gfb n rp) n) (n + 1) gfe
           (hc.setOut _ _) hf.sorted hf.allLt hrow2 hrs'.2
           (fun p hp => ⟨(hall p (by simp [hp])).1, by have := hrs'.1 p hp; simp only at this; omega,
-            (hall p (by simp [hp])).2.2⟩)
+            (hall p (by simp [hp])).2.2.1, (hall p (by simp [hp])).2.2.2⟩)
           (by omega) he
       refine ⟨J', o', gfb', gfe', replayEff c.sess env.stamp gfb n rp ++ es, ?_, ?_⟩
-      · rw [heq]; rfl
+      · rw [heq, Out.pre_pre]; rfl
       · have hbelow2 : ∀ k, k < n + 1 → Rows.find k J' =
             Rows.find k (afterReplay c.sess env.stamp c.journal.out gfb n rp) := hout.below
-        refine ⟨by have := hout.le; omega, hout.leCur, hout.gfeCur, hout.sorted, hout.allLt,
+        refine ⟨by have := hout.le; omega, Or.inr (by have := hhd.2.2.2; rcases hout.leE with h | h <;> omega),
+          hout.leCur, hout.gfeCur, hout.sorted, hout.allLt,
           hout.rowOk, ?_, ?_, ?_, ?_⟩
         · rw [newWrites_append, replayEff_noNew _ _ _ _ _ h43, hout.noNew]; rfl
         · intro k hk
@@ -163,13 +167,13 @@ theorem resendLoop_spec (env : Env) (sr : Msg → Bool) (cur : Int) :
             exact ⟨rp, hrp, by rw [hbelow2 n (by omega)]; exact hf.atN⟩
           · exact hout.copies p h hpr
     · -- covered by a gap fill
-      rw [loop_skip env sr row _ n gfb gfe c hr hrep]
+      rw [loop_skip env sr e row _ n gfb gfe c hr hhd.2.2.2 hrep]
       obtain ⟨J', o', gfb', gfe', es, heq, hout⟩ :=
         ih c gfb (n + 1) hc hs hlt hrow hrs'.2
           (fun p hp => ⟨(hall p (by simp [hp])).1, (hall p (by simp [hp])).2.1,
-            (hall p (by simp [hp])).2.2⟩) hb (by omega)
+            (hall p (by simp [hp])).2.2.1, (hall p (by simp [hp])).2.2.2⟩) hb (by omega)
       refine ⟨J', o', gfb', gfe', es, heq, ?_⟩
-      refine ⟨hout.le, hout.leCur, hout.gfeCur, hout.sorted, hout.allLt, hout.rowOk, hout.noNew,
+      refine ⟨hout.le, hout.leE, hout.leCur, hout.gfeCur, hout.sorted, hout.allLt, hout.rowOk, hout.noNew,
         hout.below, ?_, ?_⟩
       · intro k g' hk hfind
         rcases hout.above k g' hk hfind with h | ⟨g, rp', hm, h1, h2, h3⟩
@@ -179,5 +183,35 @@ theorem resendLoop_spec (env : Env) (sr : Msg → Bool) (cur : Int) :
         rcases List.mem_cons.mp hp with h | h
         · subst h; exact absurd hpr hrep
         · exact hout.copies p h hpr
+
+/-- rows above the requested range: put back one after the other, nothing sent, the loop variables
+untouched -/
+theorem resendLoop_high (env : Env) (sr : Msg → Bool) (e : Int) :
+    ∀ (rs : List (Int × Msg)) (c : Conn) (gfb gfe : Int),
+      Rows.Sorted (c.journal.out ++ rs) → (∀ p ∈ rs, RowOk p.2 p.1 ∧ e < p.1) →
+      ∃ o', resendLoop env sr e (rs.map (·.2)) gfb gfe c =
+        ⟨.ok (gfb, gfe), setOut c (c.journal.out ++ rs) o', []⟩ := by
+  intro rs
+  induction rs with
+  | nil =>
+    intro c gfb gfe _ _
+    refine ⟨c.journal.outSeq, ?_⟩
+    simp only [List.map_nil, List.append_nil, setOut_self]
+    rfl
+  | cons hd rest ih =>
+    obtain ⟨n, row⟩ := hd
+    intro c gfb gfe hs hall
+    have hhd := hall (n, row) (by simp)
+    have hlt : Rows.AllLt n c.journal.out := by
+      intro p hp
+      have := (List.pairwise_append.mp hs).2.2 p hp (n, row) (by simp)
+      exact this
+    simp only [List.map_cons]
+    rw [loop_high env sr e row _ n gfb gfe c hhd.1 hhd.2 hlt]
+    obtain ⟨o', h⟩ := ih (setOut c (c.journal.out ++ [(n, row)]) n) gfb gfe
+      (by simpa [setOut, List.append_assoc] using hs) (fun p hp => hall p (by simp [hp]))
+    refine ⟨o', ?_⟩
+    rw [h]
+    simp [setOut, List.append_assoc]
 
 end AsyncFix.Session
